@@ -213,6 +213,17 @@ func degenerates() []NC {
 				"e\u0301lan":  {Constraint: schema.LiteralType{Type: cty.String}, IsOptional: true},
 				"\u212aelvin": {Constraint: schema.LiteralType{Type: cty.String}, IsOptional: true}}}
 		}},
+		// a literal collection between two pre-fillable siblings (its own text has no tab stops, the numbering goes on behind it)
+		{"Object{req name,protocols:LiteralValue{list},zone}", func() schema.Constraint {
+			return schema.Object{Attributes: schema.ObjectAttributes{
+				"name":      {Constraint: schema.LiteralType{Type: cty.String}, IsRequired: true},
+				"protocols": {Constraint: schema.LiteralValue{Value: cty.ListVal([]cty.Value{cty.StringVal("tcp"), cty.StringVal("udp")})}, IsRequired: true},
+				"zone":      {Constraint: schema.LiteralType{Type: cty.String}, IsRequired: true}}}
+		}},
+		{"Tuple{LiteralType{string},LiteralValue{set},LiteralType{number}}", func() schema.Constraint {
+			return schema.Tuple{Elems: []schema.Constraint{schema.LiteralType{Type: cty.String},
+				schema.LiteralValue{Value: cty.SetVal([]cty.Value{cty.StringVal("a"), cty.StringVal("b")})}, schema.LiteralType{Type: cty.Number}}}
+		}},
 		// tuples whose later elements cannot be pre-filled, behind one that can
 		{"Tuple{LiteralType{string},Reference{OfType string}}", func() schema.Constraint {
 			return schema.Tuple{Elems: []schema.Constraint{schema.LiteralType{Type: cty.String}, schema.Reference{OfType: cty.String}}}
